@@ -41,6 +41,10 @@ var (
 	heavyCases  int64
 )
 
+// at most this many objects per run get the heavy-use treatment (the thorough tier decodes tens of
+// millions of vectors; the cap keeps its cost at about half a minute)
+const heavyCap = 60000
+
 func heavyPick(s string) bool {
 	h := uint32(2166136261)
 	for i := 0; i < len(s); i++ {
@@ -368,7 +372,7 @@ func evalDecoded(r *ev.Run, P props, st *enumStats, c *dcase) any {
 			}
 		}
 	}
-	if (P.scoreLevel >= 0 || P.grid || P.neutral) && (c.level == 0 || heavyPick(c.s)) {
+	if (P.scoreLevel >= 0 || P.grid || P.neutral) && (c.level == 0 || heavyPick(c.s)) && atomic.LoadInt64(&heavyCases) < heavyCap {
 		// heavy use (round 6: memos that start only after 16 / 1000 / 1024 calls on one object): the
 		// same queries 1,100 more times on this object; every answer must stay what it was
 		for lv := c.level; lv >= 0; lv-- {
